@@ -6,7 +6,8 @@ import shrink
 import suite
 import tie
 
-RULE = ("(i) the repository's 336 suite scripts: implementation and model must both reproduce the maintainers' expected stdout / "
+RULE = ("[scale stream (lib_scale): about 30 constructs — names, literals, printed lines, keys with a multi-byte character at the boundary, statements, items, iterations, jumps followed by calls, nesting and recursion depth, trace depth — each at 24, 25, 40, 41, … 4096 (… 65,536 thorough) units of size, with the output computed in Python] " 
+        "(i) the repository's 336 suite scripts: implementation and model must both reproduce the maintainers' expected stdout / "
         "stderr / status; (ii) every `print(…) # expectation` line of docs/features.md, judged on the implementation's output "
         "(model-free); (iii) generated programs (scope- and kind-aware generator; constructs deliberately nested and crossed): the "
         "Lean model is the independent executable reading of the documentation, so a CLI-confirmed difference in stdout, status or "
@@ -151,3 +152,12 @@ def run(ctx, model_ok):
         k = len(ps) // 2
         ctx.sample({"stream": "progs", "src": ps[k][:600], "impl": impl[k]})
     ctx.sample({"stream": "docs", "src": dc[3][0][:300], "expectations": dc[3][1]})
+    # (iv) the same constructs at every SIZE (lib_scale): each program's output is a function of the size, computed in Python
+    import lib_scale
+
+    def scale_judge(c, r):
+        if (r["stdout"], r["status"]) == (c[3], c[4]):
+            return True, ""
+        return False, (f"expected stdout {c[3][:60]!r} and status {c[4]}, got stdout {r['stdout'][:60]!r}, status {r['status']}, "
+                       f"stderr {r['stderr'][:160]!r}")
+    lib_scale.run_stream(ctx, core, "a construct behaves differently at this size than the documented semantics say", scale_judge)
